@@ -125,7 +125,13 @@ def main():
             if not os.path.exists(os.path.join(HERE, "vf", "props", pid.lower() + ".py")):
                 print(f"{'NO-CHECK-YET':14s} {pid} {name}")
                 continue
-            for p, (rc, nv, tail) in run(name, [pid], a.tier).items():
+            try:
+                res = run(name, [pid], a.tier)
+            except SystemExit as ex:
+                print(f"{'PATCH-FAILED':14s} {pid} {name} ({ex})")
+                bad += 1
+                continue
+            for p, (rc, nv, tail) in res.items():
                 status = "CAUGHT" if rc == 1 else ("MISSED" if rc == 0 else "HARNESS-ERROR")
                 bad += rc != 1
                 print(f"{status:14s} {p} {name}")
